@@ -59,10 +59,18 @@ def thread_runs(ctx, tier):
     for rep in range(reps):
         for mode, th, rounds in plan:
             args = [mode, str(th), str(rounds), str(ctx.seed * 100 + rep)]
-            p = subprocess.run([exe] + args, capture_output=True, text=True,
-                               env=dict(os.environ, TSAN_OPTIONS="halt_on_error=0 report_signal_unsafe=0 exitcode=0"))
-            summ = sorted(set(re.findall(r"SUMMARY: ThreadSanitizer: ([^\n]*)", p.stderr)))
-            res.append(("c18_threads " + " ".join(args), p.stdout.strip(), len(summ), summ, p.returncode))
+            try:
+                p = subprocess.run([exe] + args, capture_output=True, text=True, timeout=120,
+                                   env=dict(os.environ, TSAN_OPTIONS="halt_on_error=0 report_signal_unsafe=0 exitcode=0"))
+                out, err, rc = p.stdout.strip(), p.stderr, p.returncode
+            except subprocess.TimeoutExpired as e:
+                # a caller that never returns (e.g. a waiter spinning for ever in mtCallOnce) is a failure
+                err = e.stderr.decode(errors="replace") if isinstance(e.stderr, bytes) else (e.stderr or "")
+                out, rc = "FAIL timeout: the run did not finish within 120 s (a thread never returns)", 124
+            summ = sorted(set(re.findall(r"SUMMARY: ThreadSanitizer: ([^\n]*)", err)))
+            res.append(("c18_threads " + " ".join(args), out, len(summ), summ, rc))
+            if rc == 124:
+                return res
     return res
 
 
